@@ -1236,3 +1236,14 @@ package mcp
 //@ func mcpHandler.handleRequest$1
 //@   before call dispatchRequest#1 assert[C13 context-session-wins] arg3 == sessionFromCtx && arg1 == ctx && arg2 == req
 //@   before call dispatchRequest#2 assert[C13 otherwise-the-session-of-the-request-that-built-this-closure] arg3 == session && arg1 == ctx && arg2 == req
+//@
+// C01 / C05 — classification of an incoming message decides whether it may complete a pending call:
+// only a message without a method (legacy SSE) / with a result or error (shared classifier) is an answer.
+//@ func sseClientTransport.handleMessageEvent
+//@   before call handleResponse#1 assert[C01,C05 only-a-message-with-an-id-and-no-method-is-taken-as-an-answer] ("id" in message) && !("method" in message)
+//@   before call handleIncomingRequest#1 assert[C01,C05 a-message-with-id-and-method-is-a-server-request] ("id" in message) && ("method" in message)
+//@   before call handleNotification#1 assert[C01,C05 a-message-with-a-method-and-no-id-is-a-notification] !("id" in message) && ("method" in message)
+//@ func parseJSONRPCMessageType
+//@   before call return#0 assert[C01,C05 answer-classes-need-an-id-and-a-result-or-error] isnil(ret1) && (ret == JSONRPCMessageTypeResponse || ret == JSONRPCMessageTypeError) ==> ("id" in message) && (("result" in message) || ("error" in message))
+//@   before call return#0 assert[C01,C05 a-request-has-an-id-and-neither-result-nor-error] isnil(ret1) && ret == JSONRPCMessageTypeRequest ==> ("id" in message) && !("result" in message) && !("error" in message)
+//@   before call return#0 assert[C01,C05 a-notification-has-a-method-and-no-id] isnil(ret1) && ret == JSONRPCMessageTypeNotification ==> !("id" in message) && ("method" in message)
